@@ -661,7 +661,36 @@ theorem applyOp_sim (o : Spec.Opts) (sz acc : Nat) (sop : Spec.Op) (hk : sop.kin
     ResSim (fun x y => x = y) (Spec.applyOp o sz acc a sop) (Spec.applyOp o sz acc b sop) := by
   unfold Spec.applyOp
   cases hp : Spec.parsePointer sop.path with
-  | none => trivial
+  | none =>
+    simp only
+    split
+    · trivial
+    · -- every kind fails; `move` / `copy` evaluate the source half first, and that failure is the
+      -- same on related documents
+      cases hkind : sop.kind with
+      | move =>
+        simp only
+        cases hf : Spec.parsePointer sop.frm with
+        | none => rfl
+        | some frm =>
+          cases frm with
+          | nil => rfl
+          | cons f fs =>
+            exact (atParent_sim o _ _ _ (fun _ _ t hpq _ => removeIn_sim o t hpq) (f :: fs) a b h).bind
+              (fun _ _ _ _ _ _ => rfl)
+      | copy =>
+        simp only
+        cases hf : Spec.parsePointer sop.frm with
+        | none => rfl
+        | some frm =>
+          cases frm with
+          | nil => rfl
+          | cons f fs =>
+            exact (lookup_sim o false (f :: fs) a b h).bind (fun _ _ _ _ _ _ => rfl)
+      | add => rfl
+      | remove => rfl
+      | replace => rfl
+      | test => rfl
   | some path =>
     simp only
     cases hkind : sop.kind with
@@ -739,7 +768,7 @@ theorem applyOp_sim (o : Spec.Opts) (sz acc : Nat) (sop : Spec.Op) (hk : sop.kin
     | move =>
       simp only
       cases hf : Spec.parsePointer sop.frm with
-      | none => trivial
+      | none => rfl
       | some frm =>
         cases frm with
         | nil => rfl
@@ -754,7 +783,7 @@ theorem applyOp_sim (o : Spec.Opts) (sz acc : Nat) (sop : Spec.Op) (hk : sop.kin
     | copy =>
       simp only
       cases hf : Spec.parsePointer sop.frm with
-      | none => trivial
+      | none => rfl
       | some frm =>
         simp only
         have hsrc : ∀ frm : List Bytes, ResRel Sim
